@@ -332,6 +332,54 @@ func c04Gen(tier string, rng *rand.Rand, emit func(interface{})) {
 		}
 		emit(c04Case{Op: 3, X1: toF64s(xs), Mu0: F64(mu0), Alt: it/3%3 - 1})
 	}
+	// ---- the mu0 dimension ("all mu0") of the paired and one-sample tests: mu0 = +-10^k * spread for k = 0..15
+	//      (a mu0 many orders of magnitude beyond the spread of the data must not be rounded INTO the data: the
+	//      statistic is (mean - mu0) sqrt(n) / s with the mean and s of the untouched differences), and mu0 within
+	//      a few ulps of the mean (T next to 0).
+	nMu := 4 * mul
+	for it := 0; it < nMu; it++ {
+		off, spread := c04Scale(rng)
+		kind := rng.Intn(3) / 2
+		n := c04Size(rng)
+		x1 := c04Sample(rng, n, off, spread, kind)
+		x2 := make([]float64, n)
+		diff := make([]float64, n)
+		for i := range x2 {
+			x2[i] = x1[i] + spread*float64(rng.Intn(513)-256)/1024
+			diff[i] = x1[i] - x2[i]
+		}
+		xs := c04Sample(rng, n, off, spread, kind)
+		md, mx := stats.Mean(diff), stats.Mean(xs)
+		var mus, mus1 []float64
+		for k := 0; k <= 15; k++ {
+			m := math.Pow(10, float64(k)) * spread
+			mus = append(mus, m, -m)
+			mus1 = append(mus1, off+m, off-m, m, -m)
+		}
+		near := func(m float64) []float64 {
+			return []float64{math.Nextafter(m, math.Inf(1)), math.Nextafter(m, math.Inf(-1)), m + spread*math.Ldexp(1, -30), m - spread*math.Ldexp(1, -30),
+				m * (1 + math.Ldexp(1, -40)), m * (1 - math.Ldexp(1, -40))}
+		}
+		mus = append(mus, near(md)...)
+		mus1 = append(mus1, near(mx)...)
+		for j, mu0 := range mus {
+			emit(c04Case{Op: 2, X1: toF64s(x1), X2: toF64s(x2), Mu0: F64(mu0), Alt: j%3 - 1})
+		}
+		for j, mu0 := range mus1 {
+			emit(c04Case{Op: 3, X1: toF64s(xs), Mu0: F64(mu0), Alt: j%3 - 1})
+		}
+	}
+	// the same on small integer data
+	for _, x1 := range [][]float64{{0, 1, 3}, {1, 2, 3, 3}, {0, 0, 2, 3, 3}} {
+		x2 := []float64{1, 1, 0, 2, 1}[:len(x1)]
+		for k := 0; k <= 16; k++ {
+			for _, sg := range []float64{1, -1} {
+				mu0 := sg * math.Pow(10, float64(k))
+				emit(c04Case{Op: 2, X1: toF64s(x1), X2: toF64s(x2), Mu0: F64(mu0), Alt: k%3 - 1})
+				emit(c04Case{Op: 3, X1: toF64s(x1), Mu0: F64(mu0), Alt: k%3 - 1})
+			}
+		}
+	}
 	// ---- MeanCI ----
 	cs := []float64{-0.5, 0, 0.05, 0.25, 0.5, 0.8, 0.9, 0.95, 0.99, 0.999, 1, 1.5}
 	for _, c := range cs {
